@@ -1,4 +1,6 @@
 import Pyunicorn.Lemmas.Similarity
+import Pyunicorn.Lemmas.SimilarityIeee
+import Pyunicorn.Lemmas.SimilarityWeight
 import Pyunicorn.Generated.ArithC09
 /-!
 # C09 — similarity networks link exactly the pairs above the threshold
@@ -73,6 +75,44 @@ theorem nnz_non_local_le (S damp : Sim) (θ : Rat) (N : Nat)
   simp only [weighted, if_true]
   have := Rat.mul_le_mul_of_nonneg_left (hd i j hi hj) (hS i j hi hj)
   simpa using this
+
+/-! ## 2b. the documented distance weight `½ (tanh(a (d − d_min)) + 1)` -/
+
+/-- the weight lies in `[0, 1]` whenever the hyperbolic tangent supplied by the numerical library
+has values in `[-1, 1]` (the outer `+ 1` and `0.5 *` are monotone and exact at the end points, so
+this also holds for their rounded evaluation) -/
+theorem dampOf_mem_unit (th : Rat → Rat) (a dmin d : Rat)
+    (hth : -1 ≤ th (a * (d - dmin)) ∧ th (a * (d - dmin)) ≤ 1) :
+    0 ≤ dampOf th a dmin d ∧ dampOf th a dmin d ≤ 1 := by
+  unfold dampOf
+  obtain ⟨h1, h2⟩ := hth
+  constructor <;> grind
+
+/-- for the real hyperbolic tangent the weight lies strictly between 0 and 1 -/
+theorem real_weight_mem_unit (a dmin d : ℝ) :
+    0 < realWeight a dmin d ∧ realWeight a dmin d < 1 := realWeight_mem_unit a dmin d
+
+/-- farther apart ⇒ larger weight (monotone `tanh`, steepness `a ≥ 0`) -/
+theorem dampOf_mono (th : Rat → Rat) (hmono : ∀ x y, x ≤ y → th x ≤ th y) (a dmin d d' : Rat)
+    (ha : 0 ≤ a) (h : d ≤ d') : dampOf th a dmin d ≤ dampOf th a dmin d' := by
+  unfold dampOf
+  have h1 : d - dmin ≤ d' - dmin := by grind
+  have h2 : a * (d - dmin) ≤ a * (d' - dmin) := Rat.mul_le_mul_of_nonneg_left h1 ha
+  have := hmono _ _ h2
+  grind
+
+/-- a symmetric angular distance gives a symmetric weight matrix -/
+theorem dampMat_symm (th : Rat → Rat) (a dmin : Rat) (dist : Sim) (i j : Nat)
+    (h : dist i j = dist j i) : dampMat th a dmin dist i j = dampMat th a dmin dist j i := by
+  simp [dampMat, h]
+
+/-- **suppression of local links with the documented weight only removes links**: the hypothesis
+`damp ≤ 1` of `nnz_non_local_le` is a theorem for `damp = dampMat th a d_min dist` -/
+theorem nnz_non_local_le_documented (S dist : Sim) (th : Rat → Rat) (a dmin θ : Rat) (N : Nat)
+    (hS : ∀ i j, i < N → j < N → 0 ≤ S i j) (hth : ∀ x, -1 ≤ th x ∧ th x ≤ 1) :
+    nnz (thresholdAdjacency (weighted true S (dampMat th a dmin dist)) θ N)
+      ≤ nnz (thresholdAdjacency (weighted false S (dampMat th a dmin dist)) θ N) :=
+  nnz_non_local_le S _ θ N hS fun i j _ _ => (dampOf_mem_unit th a dmin (dist i j) (hth _)).2
 
 /-! ## 3. a symmetric similarity gives an undirected network -/
 
@@ -192,6 +232,101 @@ theorem density_gap_le_ties (S damp : Sim) (N k : Nat) (ρ ε θ : Rat)
   have : len ≤ L + T + k := by omega
   have : (len : Rat) ≤ (L : Rat) + T + k := by exact_mod_cast this
   grind
+
+/-- **the selected threshold is the stated quantile**: it is the order statistic number
+`m = min k (len − 1)` (counting from 0) of the off-diagonal similarities — at most `len − 1 − m`
+of them are larger, at least `len − m` are larger or equal -/
+theorem threshold_is_order_statistic (S : Sim) (N k : Nat) (θ : Rat)
+    (h : thresholdFromIndex S N k = some θ) :
+    (offDiag S N).countP (fun s => decide (θ < s)) + min k ((offDiag S N).length - 1) + 1
+        ≤ (offDiag S N).length ∧
+      (offDiag S N).length ≤ (offDiag S N).countP (fun s => decide (θ < s))
+        + (offDiag S N).countP (fun s => decide (s = θ)) + min k ((offDiag S N).length - 1) :=
+  ⟨quantile_upper _ k θ h, quantile_lower _ k θ h⟩
+
+/-- `flat_corr.sort()` may use any algorithm: every ascending rearrangement of the off-diagonal
+similarities is the list the model indexes -/
+theorem sort_algorithm_irrelevant (S : Sim) (N : Nat) (l' : List Rat)
+    (hp : l'.Perm (offDiag S N)) (hs : l'.Pairwise (· ≤ ·)) (k : Nat) :
+    l'[min k (l'.length - 1)]? = thresholdFromIndex S N k := by
+  rw [sorted_perm_eq_sortAsc _ _ hp hs]
+  rfl
+
+/-- the ordered pairs whose link is removed by the distance weight at threshold `θ` -/
+def suppressed (S damp : Sim) (θ : Rat) (N : Nat) : Nat :=
+  ((List.range (N * N)).filter fun p => p / N != p % N).countP fun p =>
+    decide (θ < S (p / N) (p % N)) && !decide (θ < S (p / N) (p % N) * damp (p / N) (p % N))
+
+/-- **with suppression of local links the request is missed by at most the tied pairs plus the
+suppressed pairs**: `ρ·(N² − N) − ε ≤ #linked + #tied at θ + #suppressed by the weight` -/
+theorem density_gap_non_local (S damp : Sim) (N k : Nat) (ρ ε θ : Rat)
+    (hk : (k : Rat) ≤ (1 - ρ) * ((offDiag S N).length : Rat) + ε)
+    (h : thresholdFromIndex S N k = some θ) :
+    ρ * ((offDiag S N).length : Rat) - ε
+      ≤ (nnz (thresholdAdjacency (weighted true S damp) θ N) : Rat)
+        + (((offDiag S N).countP fun s => decide (s = θ) : Nat) : Rat)
+        + (suppressed S damp θ N : Rat) := by
+  have h0 := density_gap_le_ties S damp N k ρ ε θ hk h
+  have hle : nnz (thresholdAdjacency (weighted false S damp) θ N)
+      ≤ nnz (thresholdAdjacency (weighted true S damp) θ N) + suppressed S damp θ N := by
+    rw [nnz_thresholdAdjacency, nnz_thresholdAdjacency]
+    simp only [offDiag, List.countP_map, suppressed]
+    have := countP_le_countP_add ((List.range (N * N)).filter fun p => p / N != p % N)
+      (fun p => decide (θ < S (p / N) (p % N)))
+      (fun p => decide (θ < S (p / N) (p % N) * damp (p / N) (p % N)))
+    simpa [weighted, Function.comp_def] using this
+  have : (nnz (thresholdAdjacency (weighted false S damp) θ N) : Rat)
+      ≤ (nnz (thresholdAdjacency (weighted true S damp) θ N) : Rat)
+        + (suppressed S damp θ N : Rat) := by exact_mod_cast hle
+  grind
+
+/-- 3 nodes, all similarities 1/2 or 3/4, weight 1/2 on one pair: request ρ = 1 → threshold 1/2;
+the pair (0,1)/(1,0) with similarity 3/4 is suppressed (3/8 ≤ 1/2), nothing is linked -/
+example : let S : Sim := fun i j => if i + j = 1 then 3/4 else 1/2
+    let damp : Sim := fun i j => if i + j = 1 then 1/2 else 1
+    thresholdFromIndex S 3 0 = some (1/2) ∧ suppressed S damp (1/2) 3 = 2 ∧
+      nnz (thresholdAdjacency (weighted true S damp) (1/2) 3) = 0 ∧
+      (offDiag S 3).countP (fun s => decide (s = 1/2)) = 4 := by decide +kernel
+
+/-! ### the index as CPython evaluates it (two IEEE-754 binary64 roundings) -/
+
+/-- one rounding to binary64 has relative error at most `2⁻⁵³` -/
+theorem rn53_relative_error (x : Rat) (hx : 0 ≤ x) : |rn53 x - x| ≤ x / 2 ^ 53 := rn53_err x hx
+
+/-- **the index `int((1 - ρ) * len)` computed in double precision** lies within
+`len · (2⁻⁵² + 2⁻¹⁰⁶)` of `[(1-ρ)·len − 1, (1-ρ)·len]`: it satisfies the index hypotheses of
+`density_le_request` and `density_gap_le_ties` with `ε = len · ieeeSlack` -/
+theorem ieeeIndex_bounds (ρ : Rat) (len : Nat) (h0 : 0 ≤ ρ) (h1 : ρ ≤ 1) :
+    (1 - ρ) * (len : Rat) - 1 - (len : Rat) * ieeeSlack ≤ (ieeeIndex ρ len : Rat) ∧
+      (ieeeIndex ρ len : Rat) ≤ (1 - ρ) * (len : Rat) + (len : Rat) * ieeeSlack :=
+  ieeeIndex_bounds' ρ len h0 h1
+
+/-- **`set_link_density(ρ)` as executed** (IEEE index, any `non_local`): the number of ordered
+linked pairs is at most `(ρ + 2⁻⁵² + 2⁻¹⁰⁶) · (N² − N)`, and without suppression of local links
+at least `(ρ − 2⁻⁵² − 2⁻¹⁰⁶) · (N² − N)` minus the pairs tied at the selected threshold -/
+theorem set_link_density_ieee (s s' : Net) (ρ : Rat)
+    (hS : ∀ i j, i < s.N → j < s.N → 0 ≤ s.S i j)
+    (hd : ∀ i j, i < s.N → j < s.N → s.damp i j ≤ 1)
+    (h0 : 0 ≤ ρ) (h1 : ρ ≤ 1)
+    (h : s.setLinkDensity (ieeeIndex ρ (offDiag s.S s.N).length) = some s') :
+    (nnz s'.A : Rat) ≤ (ρ + ieeeSlack) * ((offDiag s.S s.N).length : Rat) ∧
+      (s.nonLocal = false →
+        (ρ - ieeeSlack) * ((offDiag s.S s.N).length : Rat)
+          ≤ (nnz s'.A : Rat) + (((offDiag s.S s.N).countP fun x => decide (x = s'.θ) : Nat) : Rat)) := by
+  simp only [Net.setLinkDensity, Option.map_eq_some_iff] at h
+  obtain ⟨θ, hθ, rfl⟩ := h
+  obtain ⟨b1, b2⟩ := ieeeIndex_bounds ρ (offDiag s.S s.N).length h0 h1
+  have hslack : (0 : Rat) ≤ ieeeSlack := by unfold ieeeSlack; positivity
+  have hlen : (0 : Rat) ≤ ((offDiag s.S s.N).length : Rat) := by exact_mod_cast Nat.zero_le _
+  have hε : (0 : Rat) ≤ ((offDiag s.S s.N).length : Rat) * ieeeSlack := mul_nonneg hlen hslack
+  constructor
+  · have := density_le_request s.S s.damp s.nonLocal s.N _ ρ _ θ hS hd h0 hε b1 hθ
+    simp only [Net.setThreshold]
+    linarith
+  · intro hnl
+    have := density_gap_le_ties s.S s.damp s.N _ ρ _ θ b2 hθ
+    simp only [Net.setThreshold, hnl]
+    linarith
 
 /-- the reported density is the number of ordered linked pairs over `N (N − 1)` -/
 theorem density_spec (A : List Bool) (N : Nat) (d : Rat) (h : linkDensity A N = some d) :
@@ -414,6 +549,24 @@ theorem gen_linkDensity (A : List Bool) (N : Nat) (h : 2 ≤ N) :
     simp [Rat.intCast_sub, h2]
   have h3 : (((nnz A : Nat) : Int) : Rat) = (nnz A : Rat) := by norm_cast
   simp only [linkDensity, this, if_false, ArithC09.linkDensityExpr, h1, h2, h3]
+
+/-- `similarity_measure * (0.5 * (np.tanh(a * (self.grid.angular_distance() - d_min)) + 1))` of
+`_calculate_non_local_adjacency` is the weighted similarity of the model (`np.tanh` and the
+angular distance kept uninterpreted) -/
+theorem gen_weight (s a dmin d : Rat) (th : Rat → Rat) :
+    ArithC09.weightExpr s a dmin th d = s * dampOf th a dmin d := by
+  simp [ArithC09.weightExpr, dampOf]
+
+theorem gen_weighted (S dist : Sim) (th : Rat → Rat) (a dmin : Rat) (i j : Nat) :
+    weighted true S (dampMat th a dmin dist) i j
+      = ArithC09.weightExpr (S i j) a dmin th (dist i j) := by
+  simp [weighted, dampMat, gen_weight]
+
+/-- `if not self.directed: self.n_links //= 2` of the adjacency setter is `countLinks` -/
+theorem gen_countLinks (directed : Bool) (A : List Bool) :
+    ((countLinks directed A : Nat) : Int)
+      = if ArithC09.halveCond directed then ArithC09.halfLinks (nnz A : Nat) else (nnz A : Nat) := by
+  cases directed <;> simp [countLinks, ArithC09.halveCond, ArithC09.halfLinks]
 
 /-- the index `min(int((1-ρ)·len), len-1)` of the source is `min k (len-1)` for the exact floor
 `k` of `(1-ρ)·len`, which satisfies both index hypotheses of the density theorems with `ε = 0`,
